@@ -232,6 +232,34 @@ def _check_wakeups(check, an: Analysis):
                      for n in ast.walk(changed.fn.node))
     check.instance('W', 'AsyncComparison.__on_changed__', ok and calls_test,
                    where_fn(changed.fn), 'a comparison that now holds triggers its waiters')
+    cinit = an.callee(COMPARISON, '__init__')
+    cparams = [a.arg for a in cinit.fn.node.args.args]
+    verdict, n_paths, bad = True, 0, None
+    for path in an.paths(cinit):
+        if not path.normal:
+            continue
+        n_paths += 1
+        for operand in (cparams[1], cparams[3]):
+            tracked = [e for e in path.events if e.kind == 'test' and e.get('key') == (
+                'truth', 'isinstance(%s, Tracked)' % operand)]
+            if tracked and tracked[-1]['value'] is True:
+                listening = any(e.kind == 'call' and isinstance(e.node, ast.Call) and
+                                ast.unparse(e.node.func) == '%s.__add_listener__' % operand
+                                and [ast.unparse(a) for a in e.node.args] == ['self']
+                                for e in path.events)
+                if not listening:
+                    verdict = False
+                    bad = bad or path
+    check.instance('W', 'AsyncComparison.__init__:listens-to-every-tracked-operand',
+                   verdict and n_paths >= 2, where_fn(cinit.fn),
+                   'a comparison registers itself as listener of every operand that is a '
+                   'Tracked value (%d construction paths)' % n_paths,
+                   path=rules.path_lines(bad) if bad else None, analysed=n_paths)
+    addl = an.method(TRACKED, '__add_listener__')
+    adds = [n for n in ast.walk(addl.node) if isinstance(n, (ast.Assign, ast.Expr))]
+    check.instance('W', 'Tracked.__add_listener__', any(
+        'self._listeners' in ast.unparse(n) and addl.node.args.args[1].arg in ast.unparse(n)
+        for n in adds), where_fn(addl), 'the listener is recorded in `_listeners`')
     boolm = an.method(COMPARISON, '__bool__')
     returns = [n for n in ast.walk(boolm.node) if isinstance(n, ast.Return)]
     check.instance('W', 'AsyncComparison.__bool__==_test', len(returns) == 1 and
